@@ -281,7 +281,8 @@ Definition process_pre (cfg : srvcfg) (c : conn) (t : msg) (sc : script) : conn 
       | Some fr =>
         if has_bit (f_type fr) c_QTAUTH then
           if s_auth cfg then (c, rf, PAuthOp, [EvAuth t fid]) else (c, rf, PReject e_notimpl, [])
-        else if negb (f_opened fr) || has_bit (f_type fr) c_QTDIR || (N.land (f_omode fr) 3 =? c_OREAD)
+        else if negb (f_opened fr) || has_bit (f_type fr) c_QTDIR
+                || (negb (N.land (f_omode fr) 3 =? c_OWRITE) && negb (N.land (f_omode fr) 3 =? c_ORDWR))
         then (c, rf, PReject e_baduse, [])
         else if count_too_large (c_msize c) (len data) then (c, rf, PReject e_toolarge, [])
         else (c, rf, PForward, [EvFwd t fid (f_user fr)])
